@@ -123,7 +123,7 @@ fn t_reset_established() {
     core::mem::forget(r);
     assert!(out_empty(&mut w.tx_msg_rx), "C10.reset.no_reply: a Reset from the peer is never answered with a Reset");
     assert!(!has(&w, A) && table_len(&w) == 1, "C06.reset.removed: exactly the aborted flow's slot is removed");
-    assert!(sa.finish_sent.load(Ordering::Relaxed), "C06.reset.writes_fail: later writes on the aborted stream fail");
+    assert!(sa.finish_sent.load(Ordering::Relaxed), "C05+C06.reset.writes_fail: later writes on the aborted stream fail");
     let mut c = cx();
     assert!(matches!(sa.poll_for_push(&mut c), Poll::Ready(0)), "C06.reset.eof: the reader gets end-of-stream");
     assert!(bystander_established_untouched(&w, &mut sb), "C06.reset.frame: the neighbouring flow keeps its queue, credit and state");
